@@ -59,7 +59,7 @@ def run_case(case, ctx):
 		names = case['names']
 		def nm(i, for_list):
 			stem, ext, gz = names[i % len(names)]
-			return clean_name(stem, ext + ('.gz' if gz and ext != '' else ''), for_list), gz
+			return clean_name(stem, ext + ('.gz' if gz else ''), for_list), gz
 		args = []
 		W = None
 		if rmode == 'use_db':
